@@ -760,6 +760,9 @@ def c07(tier):
         rep.extra.setdefault("c07_index_generations_seen", []).append(sorted(gens))
     if two == 0:
         raise ToolError("C07 growth traces never grew the index twice: vacuous")
+    # the storage side of counting (Slots.tla, RC): a key is stored exactly while its count is positive, at the address the
+    # specification predicts; raising / lowering a count allocates nothing
+    slots_rc_part(rep, thorough, "c07")
     return rep.finish()
 
 
@@ -1222,6 +1225,29 @@ def slots_part(rep, thorough, label):
     rep.extra["compressed_chain_heads_seen"] = heads
     if full < 100 or heads < 20:
         raise ToolError("slots-replay compared %d complete layouts and met %d compressed chains: vacuous" % (full, heads))
+    slots_rc_part(rep, thorough, label)
+
+
+def slots_rc_part(rep, thorough, label):
+    """Slots.tla for a counting column (RC): a Set of a present key and a Dereference above one only log the entry again,
+    the storage goes when the count reaches zero; addresses compared as in slots_part."""
+    res = vcore.tlc_check("Slots.tla", os.path.join(vcore.SPEC, "MC_Slots_rc.cfg"), timeout=3000)
+    rep.add_model(res, "MC_Slots_rc")
+    if not res["ok"]:
+        rep.violation("TLC: %s violated in Slots.tla (counting column)" % res["violated"],
+                      {"kind": "model", "cfg": "MC_Slots_rc.cfg", "tlc_tail": res["out"][-5000:]})
+    else:
+        log("[tlc] MC_Slots_rc: %d distinct states: ok" % res["distinct"])
+    behs, gen, _ = vcore.tlc_simulate("Slots.tla", os.path.join(vcore.SPEC, "GEN_Slots_rc.cfg"), 80 if thorough else 20, 121, SEED + 29)
+    rep.transitions += gen
+    covered = set()
+    for b in behs:
+        covered.update(b["tags"])
+    missing = [t for t in ("inc_ref", "dec_ref", "remove", "pop", "extend", "crash_replays") if t not in covered]
+    if missing:
+        raise ToolError("Slots behaviours of the counting column do not take the transitions %s: vacuous" % missing)
+    results = generic_replay(rep, "slots-replay", behs, {"variant": "rc"}, "%s_slrc" % label, "slots-replay")
+    rep.extra["slot_address_comparisons_counting_column"] = sum(r.get("full_compares", 0) for r in results)
 
 # ---------------------------------------------------------------------------
 # C04: btree columns
